@@ -46,6 +46,10 @@ def r1(ctx):
                 ctx.ok(R, k, t["s"], f"{m} on the request queue")
             elif t["f"] == "std::collections::VecDeque::new":
                 continue
+            elif m in ("retain", "retain_mut") and any(True for cid in closure_args(b, t) for fb in ctx.w.family(cid)
+                                                      for _ in fb.calls(re.compile(r"oneshot::Sender<T>::is_closed$|oneshot::Sender::is_closed$"))):
+                # order-preserving, and only requests whose connector is gone are dropped
+                ctx.ok(R, k, t["s"], "purge of abandoned requests (retain keeps the arrival order of the others)")
             else:
                 ctx.bad(R, k, t["s"], f"`{t['f']}` on the listener's request queue in `{b.id}`: requests are no longer accepted in arrival order")
     ctx.floor(R, 2)
@@ -346,7 +350,53 @@ def r7(ctx):
     ctx.floor(R, 5)
 
 
+def r8(ctx):
+    R = "C12-R8"
+    ctx.rule(R, "the accept queue: (a) only live requests count against its capacity - the `len() == server_socket_capacity` test in the "
+                "SYN arm of Tcp::receive_from_network is preceded by a purge of requests whose connector gave up (retain on !ack.is_closed()) "
+                "- accept would skip them anyway; (b) Tcp::new_stream asserts that the pair is not in the stream table, and for an accepted "
+                "stream the remote half of the pair is chosen by the other host, so a SYN for a pair that is still in the table must not "
+                "reach accept: the SYN arm (or accept) tests Tcp::sockets for the pair first")
+    rf = ctx.body(R, "turmoil::host::Tcp::receive_from_network")
+    if not rf:
+        return
+    DQ = "turmoil::host::ServerSocket::deque"
+    fam = ctx.w.family(rf.id)
+    caps = []
+    for sbb, te, fe, o in guards_on(rf, lambda o: o["k"] in ("bin", "call")):
+        at = Slicer(ctx.w).atoms(rf, rf.term(sbb)["d"])
+        if "field:turmoil::host::Tcp::server_socket_capacity" in at and any(a.endswith("VecDeque::len") for a in at):
+            caps.append(sbb)
+    purge = [bb for bb, t in rf.calls(re.compile(r"^std::collections::VecDeque::(retain|retain_mut)$"))
+             if any(True for cid in closure_args(rf, t) for fb in ctx.w.family(cid) for _ in fb.calls(re.compile(r"oneshot::Sender<T>::is_closed$|oneshot::Sender::is_closed$")))]
+    ok = bool(caps) and bool(purge) and all(rf.dominated_by_any(c, blocks=purge) for c in caps)
+    ctx.inst(R, "backlog:capacity-counts-live-requests", ok, rf.site(caps[0]) if caps else rf.span,
+             "abandoned requests are purged before the capacity test" if ok else
+             "the backlog capacity test counts requests whose connector already gave up (they are only purged lazily by accept): `tcp_capacity` abandoned "
+             "connects to a slow listener make the next SYN panic the simulation with `server socket buffer full` although nothing is pending")
+    push = [bb for bb, t in rf.calls(re.compile(r"^std::collections::VecDeque::push_back$"))]
+    fe_ck = []
+    for sbb, te, fe, o in guards_on(rf, lambda o: o["k"] == "call" and re.search(r"IndexMap::contains_key$|Tcp::is_connected$", o["t"]["f"])):
+        if "field:turmoil::host::Tcp::sockets" in Slicer(ctx.w, into_callees=1).atoms(rf, o["t"]["args"][0]):
+            fe_ck += fe
+    ac = ctx.w.bodies.get("turmoil::net::tcp::listener::TcpListener::accept")
+    in_accept = False
+    if ac:
+        for fb in ctx.w.family(ac.id):
+            ns = [bb for bb, t in fb.calls("turmoil::host::Tcp::new_stream")]
+            for sbb, te, fe, o in guards_on(fb, lambda o: o["k"] == "call" and re.search(r"Tcp::is_connected$|IndexMap::contains_key$|World::current$", o["t"]["f"])):
+                if ns and fe and all(fb.dominated_by_any(x, edges=fe) for x in ns):
+                    in_accept = True
+    ok2 = in_accept or (bool(push) and bool(fe_ck) and all(rf.dominated_by_any(x, edges=fe_ck) for x in push))
+    ctx.inst(R, "backlog:no-request-for-a-pair-in-use", ok2, rf.site(push[0]) if push else rf.span,
+             "a SYN for a pair that is still in the stream table is refused" if ok2 else
+             "a SYN whose (listener address, connector address) pair is still in the stream table is queued, and accept() then hits the `already connected` assertion in "
+             "Tcp::new_stream: the connector's ephemeral port came round again while the accepted end of the earlier stream was still open (or its FIN was lost)")
+    ctx.floor(R, 2)
+
+
 def run(ctx):
+    r8(ctx)
     r7(ctx)
     from . import C15
     C15.r1(ctx)   # connect allocates its local port through assign_ephemeral_port: an in-use port makes new_stream panic
